@@ -45,6 +45,15 @@ CHECKS = {
  "C19": ("stateful property-based testing (proptest): generated full-system histories + structured reward-round scenarios, end-state accounting equations across four contracts and the simulated chain on every index update",
          "Exploration: every UpdateGlobalIndex (by the updater or via validator removal) in generated histories must succeed while stake is bonded, withdraw every validator's rewards, leave the dispatcher empty, book exactly the re-bonded coins in the stSei pool, change no token balance, no unbonder claim and not the hub's liquid balance, pay the keeper floor(balance x rate), split by bonded stake (C17 oracle) and raise the holders' total accrual by the delivered amount within dust. The zero-send failure is listed as known finding.",
          "DESIGN.md 5 C19"),
+ "C14": ("stateful property-based testing (proptest): reward-focused generated histories + structured reward rounds, solvency inequalities and exact claim arithmetic (256-bit) after every step",
+         "Exploration: in generated histories with mints, burns, transfers, allowance operations, claims and reward deliveries of all magnitudes (full path and direct deposits, also while nobody holds bSei) the sum of all holders' claimable rewards must stay <= recorded balance <= actual balance, a claim must succeed iff >= 1 unit accrued and pay exactly the integer part keeping the fraction, stranded dust must stay within (#updates + #holders + 1) and claimed <= delivered.",
+         "DESIGN.md 5 C14"),
+ "C15": ("metamorphic property-based testing (proptest): each generated scenario is executed as given, with other holders' operations permuted, and with the observed stake split over several accounts; relations between the executions are the oracle",
+         "Exploration of a relational property: generated reward-window scenarios are run several times against the real contracts; per update the observed holder's accrual must equal balance x indexed / supply within one unit, must not depend on the order of other holders' operations, must be additive under account splitting (within k units) and must neither leave with transferred / sent / unbonded / burnt tokens nor be earned by tokens acquired later.",
+         "DESIGN.md 5 C15"),
+ "C16": ("stateful property-based testing (proptest): two-contract mirror equality (cw20 balances vs reward-contract holder balances) after every step of generated bSei operation sequences",
+         "Exploration: after every step of generated histories rich in bSei transfers, sends, allowance operations, allowance burns and hub-mediated burns, the reward contract's recorded balance of every address either contract enumerates must equal its bSei balance and the totals must agree.",
+         "DESIGN.md 5 C16"),
 }
 
 PENDING = {}
